@@ -18,7 +18,7 @@ from ..model import AnalysisError, Func, norm_stmt, parent
 from ..pattern import C, G, V, call, match, norm
 from ..terms import Term, alts, contains, ends_with_attrs, root_of, show, subterms
 from ..callgraph import bind_args
-from ..util import call_sites_to, calls_in, cond_value, deep_subterms, guard_leaves, nodes_in
+from ..util import call_sites_to, calls_in, cond_value, deep_subterms, gated_values, guard_leaves, nodes_in
 from .c02 import c02_7
 from .c08 import c08_7
 from .c14 import ensemble_calculate, optimizer_callbacks
@@ -226,8 +226,18 @@ def c09_4(ctx: Ctx) -> RuleResult:
         ok = idx_t[0] == "enumidx" and ends_with_attrs(idx_t[1], "samplers")
         res.add(f, c, "the sampler is created with its own index in the configured samplers", ok, "" if ok else f"index argument is `{show(idx_t, 60)}`", construct=f"{f.name}: sampler index")
         # the mask: by cases on (gradient.samplers is None, variables.mask is None)
-        mask_t = X.force_inline(mask_t, f)
-        leaves = list(guard_leaves(mask_t))
+        # the mask argument by cases: locals are followed to their (conditional) definitions, helpers are seen through
+        pnames = [p_ for p_ in (impls[0] if impls else base).positional[1:]]
+        mask_e = None
+        for kw_ in c.keywords:
+            if kw_.arg == "mask":
+                mask_e = kw_.value
+        if mask_e is None and "mask" in pnames and pnames.index("mask") < len(c.args):
+            mask_e = c.args[pnames.index("mask")]
+        if mask_e is None and len(c.args) >= 3:
+            mask_e = c.args[2]
+        leaves = gated_values(ctx, f, mask_e) if mask_e is not None else list(guard_leaves(X.force_inline(mask_t, f)))
+        mask_t = ("tuple", tuple(l_ for _c, l_ in leaves)) if leaves else mask_t
         smap = [s for s in subterms(mask_t) if ends_with_attrs(s, "gradient", "samplers")]
         vmask = [s for s in subterms(mask_t) if _mask(s)]
         why = ""
